@@ -59,7 +59,36 @@ def net_versatility():
                  "edit": ("pipe", "length_km", [1], 5.0), "struct": ("pipe", "in_service", [2], False)}
 
 
-NETS = {"heating_loop": net_heating_loop, "branched": net_branched, "gas": net_gas, "versatility": net_versatility}
+def net_deadend_source():
+    """a source at a dead-end junction: nobody defines the temperature of the injected water, the thermal problem has no solution
+    (hydraulics are fine)"""
+    import pandapipes as pp
+    net = pp.create_empty_network(fluid="water")
+    j = [pp.create_junction(net, 5, 300) for _ in range(4)]
+    pp.create_ext_grid(net, j[0], 5, 350, type="pt")
+    pp.create_pipe_from_parameters(net, j[0], j[1], 0.5, 100, k_mm=0.1, u_w_per_m2k=10, text_k=280)
+    pp.create_pipe_from_parameters(net, j[1], j[2], 0.5, 100, k_mm=0.1, u_w_per_m2k=10, text_k=280)
+    pp.create_pipe_from_parameters(net, j[3], j[1], 0.5, 100, k_mm=0.1, u_w_per_m2k=10, text_k=280)
+    pp.create_sink(net, j[2], 2.0)
+    pp.create_source(net, j[3], 0.5)
+    return net, {"break": ("ext_grid", "in_service", [0], False), "edit": ("sink", "mdot_kg_per_s", [0], 2.5),
+                 "struct": ("pipe", "in_service", [1], False)}
+
+
+def net_p_only():
+    """pressure is fixed but no element fixes a temperature: hydraulics are fine, every thermal stage must fail"""
+    import pandapipes as pp
+    net = pp.create_empty_network(fluid="water")
+    j = [pp.create_junction(net, 5, 300) for _ in range(3)]
+    pp.create_ext_grid(net, j[0], 5, type="p")
+    pp.create_pipe_from_parameters(net, j[0], j[1], 0.5, 100, k_mm=0.1, u_w_per_m2k=10, text_k=280)
+    pp.create_pipe_from_parameters(net, j[1], j[2], 0.5, 100, k_mm=0.1, u_w_per_m2k=10, text_k=280)
+    pp.create_sink(net, j[2], 2.0)
+    return net, {"break": ("ext_grid", "in_service", [0], False), "edit": ("sink", "mdot_kg_per_s", [0], 2.5),
+                 "struct": ("pipe", "in_service", [1], False)}
+
+
+NETS = {"p_only": net_p_only, "deadend": net_deadend_source, "heating_loop": net_heating_loop, "branched": net_branched, "gas": net_gas, "versatility": net_versatility}
 THERMAL_NETS = ("heating_loop", "branched")
 
 
@@ -281,6 +310,10 @@ def run_options(op):
     o = {"mode": op["mode"], "nonlinear_method": op["method"], "use_numba": False}
     if op["budget"] == "starved":
         o["iter"] = 1
+    elif op["budget"] in ("hydstarved", "thermstarved", "bistarved"):
+        # stage-specific limits: one stage is starved, the others are ample
+        o.update(max_iter_hyd=60, max_iter_therm=60, max_iter_bidirect=60)
+        o[{"hydstarved": "max_iter_hyd", "thermstarved": "max_iter_therm", "bistarved": "max_iter_bidirect"}[op["budget"]]] = 1
     elif op.get("uopts_iter") is None:
         o["iter"] = 60
     if op.get("tols") == "split":      # different tolerances per quantity: each must be judged by its own
